@@ -40,8 +40,13 @@
 (* expectations exported for replay use one and the same definition.       *)
 (*                                                                         *)
 (* Named deviations (modelled as coded, see also Diag.tla):                *)
-(*  Leaky          mode flags in this set are NOT reset between files or   *)
-(*                 passes.  As originally pinned: {"dotted"} (DOTTEDSTRUCTS *)
+(*  Leaky          mode flags in this set are NOT reset between files,     *)
+(*                 passes or (CpuScoped) changes of the target.            *)
+(*                 Vocabulary: ON/OFF flags dotted relaxed padding supmode;*)
+(*                 org radix charset sym cpu; tables macro func;           *)
+(*                 per-target state switchocc pageocc shiftocc onoff       *)
+(*                 (cleared by SetCPUCore).                                *)
+(*                 As originally pinned: {"dotted"} (DOTTEDSTRUCTS         *)
 (*                 was missing from AssembleFile_InitPass, repaired by     *)
 (*                 proposed_fixes/C18-dottedstructs-reset.diff); now: {}.  *)
 (*  StaleUntilInitPass  FirstIfSave, FirstOutputTag, SectionStack,         *)
@@ -85,6 +90,15 @@ Emit(c, t, v) == [c EXCEPT !.code = Append(@, [t |-> t, v |-> v])]
 \* "flags" that are definitions (a macro, a function, a symbol): defining one twice is an error
 Defs == {"macro", "func", "sym"}
 
+\* State that asmallg.c SetCPUCore() clears on EVERY change of the target: SwitchIsOccupied / PageIsOccupied /
+\* ShiftIsOccupied (set by the OLMS-50, SX20, KENBAK targets: SWITCH / PAGE / SHIFT are machine instructions there and
+\* the pseudo instructions of that name are disabled) and the table of ON/OFF instructions registered per target
+\* (ClearONOFF in UnsetCPU).  `flag f` for these = a visit to such a target and back; since the way back goes through
+\* SetCPUCore the visit leaves nothing behind - unless the reset is missing, i.e. f \in Leaky.  probe switchocc/pageocc/
+\* shiftocc = a SWITCH..CASE / PAGE / SHIFT line, use onoff = an ON/OFF instruction of the visited target (an unknown
+\* instruction everywhere else).
+CpuScoped == {"switchocc", "pageocc", "shiftocc", "onoff"}
+
 \* one source line in pass `pass`
 LineStep(o, st, ln, pass) ==
   LET d == st.d
@@ -112,10 +126,11 @@ LineStep(o, st, ln, pass) ==
             [] ln.k = "flag"      -> IF ln.f \in Defs /\ ln.f \in c.flags                \* defined twice
                                      THEN [st EXCEPT !.d = WrXErrorPos(o, d, IF ln.f = "macro" THEN NumDoubleMacro
                                                                                 ELSE NumDoubleDef)]
+                                     ELSE IF ln.f \in CpuScoped THEN [st EXCEPT !.c.flags = @ \cup ({ln.f} \cap Leaky)]
                                      ELSE [st EXCEPT !.c.flags = @ \cup {ln.f}]
             [] ln.k = "probe"     -> [st EXCEPT !.c = Emit(c, ln.f, ln.f \in c.flags)]
             [] ln.k = "use"       -> IF ln.f \in c.flags THEN [st EXCEPT !.c = Emit(c, ln.f, TRUE)]
-                                     ELSE [st EXCEPT !.d = WrXErrorPos(o, d, IF ln.f = "macro" THEN NumUnknownInstr
+                                     ELSE [st EXCEPT !.d = WrXErrorPos(o, d, IF ln.f \in {"macro", "onoff"} THEN NumUnknownInstr
                                                                                 ELSE NumUnknownFunction)]
             [] ln.k = "open"      ->
                  CASE ln.t = "if0"  -> [st EXCEPT !.c.ifd = @ + 1, !.c.ifasm = FALSE]
